@@ -1449,10 +1449,11 @@ func (se *SessionExecutor) rollback() (err error) {
 	defer se.txLock.Unlock()
 	se.status &= ^mysql.ServerStatusInTrans
 	for _, pc := range se.txConns {
-		if pc.IsClosed() {
-			continue
+		// a connection that died during the transaction has nothing to roll back,
+		// but its pool slot still has to be released
+		if !pc.IsClosed() {
+			err = pc.Rollback()
 		}
-		err = pc.Rollback()
 		pc.Recycle()
 	}
 
